@@ -239,23 +239,36 @@ def rule_work(chk, rid, runs, skip_classes=(), hold=True):
             st, cons = rec.state, ycons(run_, rec)
             w = st.enum_get("$work")
             vals = set(w[1]) if w and w[0] == "in" else None
+            # the working-storage typestate is a property of the whole path to this action.  Where the path branches on
+            # the step *kinds* returned by a planner (run-time table values, known to the analysis only through the
+            # planner's return-case summary), a violating path may be one the planner never takes: not a definite verdict
+            plan_dep = any(k.startswith("@plan") and k.endswith(".k") for k in st.enums)
+
+            def soften(ok):
+                return None if (ok is False and plan_dep) else ok
+            _decide = chk.decide
+
+            def decide(rule, cons_, ok, detail, **kw):
+                if ok is False and plan_dep:
+                    ok, detail = None, detail + " [not definite: the path depends on the step kinds the planner returns]"
+                return _decide(rule, cons_, ok, detail, **kw)
             if rec.kind == "Reverse":
                 need = {"A", "A*"}
                 # a multi-step Reverse needs the data of all its steps
                 ok = None if vals is None else (True if vals <= need else (False if not (vals & need) else None))
                 p2 = "/pass2" if st.enum_is("$er", "1") == "yes" else ""
-                chk.decide(rid, cons + p2, ok, f"working storage is {sorted(vals) if vals else '?'} when Reverse is emitted"
+                decide(rid, cons + p2, ok, f"working storage is {sorted(vals) if vals else '?'} when Reverse is emitted"
                            + ("" if ok is not False else ": no adjoint dependency data for the steps to be reversed")
                            + cfgs(run_), rel=run_.rel, node=rec.node)
             elif rec.kind in ("Copy", "Move") and rec.arg(2, "to_storage") == WORK:
                 ok = None if vals is None else (True if vals <= {"E"} else (False if "E" not in vals else None))
-                chk.decide(rid, cons, ok, f"working storage is {sorted(vals) if vals else '?'} when a checkpoint is loaded"
+                decide(rid, cons, ok, f"working storage is {sorted(vals) if vals else '?'} when a checkpoint is loaded"
                            + ("" if ok is not False else ": it still holds unused restart data or adjoint dependencies")
                            + cfgs(run_), rel=run_.rel, node=rec.node)
             elif hold and rec.kind == "Forward" and rec.arg(4, "storage") == WORK and truth(st, rec.arg(3)) is True \
                     and run_.cname not in skip_classes:
                 ok = None if vals is None else (True if not (vals & {"A", "A*"}) else (False if vals <= {"A", "A*"} else None))
-                chk.decide(rid, cons, ok, f"working storage is {sorted(vals) if vals else '?'} when adjoint dependencies are written to it"
+                decide(rid, cons, ok, f"working storage is {sorted(vals) if vals else '?'} when adjoint dependencies are written to it"
                            + ("" if ok is not False else ": it would hold the data of more than one step") + cfgs(run_),
                            rel=run_.rel, node=rec.node)
 
